@@ -34,7 +34,9 @@ chk("C05", "exhaustive node-class x slot enumeration (introspected) plus generat
     "Every concrete node class found by introspection x every operand slot x 11 filler shapes incl. computed keys in the middle of an access chain (enumerated), plus generated terms: "
     "_get_dependencies() must be a set equal (both inclusions) to the AST-derived location set, and perturbing any location through "
     "its ref that changes the mirrored value must hit a reported dependency and update a task defined by the expression. A node class "
-    "without a slot-table entry fails the check rather than being skipped.",
+    "without a slot-table entry fails the check rather than being skipped. Generated terms are also built with one object per distinct "
+    "sub-term and the root and every sub-node object are interrogated in both orders and again under new parents (an answer must not depend "
+    "on who asked first); a tuple family places refs inside tuples in key / argument / operand slots and judges the real value before and after each assignment.",
     TRUST, "DESIGN.md 4/C05", engine="hypothesis + enumeration")
 
 chk("C06", "all-pairs testing of generated paths and systematically derived near-misses against structural path equality",
@@ -50,8 +52,10 @@ chk("C12", "model-based round-trip testing: generated managers covering every no
     "the copy must have structurally identical definitions (dump text and operand-level read-back), pass verify() and a two-sided index "
     "invariant, own distinct containers and refs; follow-up assignments applied to both, or to one side only, are compared with one pull "
     "model per side after every step (identical behaviour and independence). A second, model-free differential runs on the manager's own default "
-    "container (items and attributes mixed; manager frozen when pickled; setter generated before pickling): same contents through both views, "
-    "same exception types, independence.",
+    "container (items and attributes mixed; manager frozen when pickled; setter generated before pickling; container still empty; container "
+    "reachable from itself directly, through a child namespace or through a list): same contents through both views, same exception types, "
+    "independence, link structure restored by identity. Every restored target must be found by a freshly built ref and every restored "
+    "expression must equal, hash like and be found by the same expression built afresh on the copy.",
     TRUST + " Only expression tasks over picklable harness containers.", "DESIGN.md 4/C12")
 
 chk("C11", "round-trip testing of generated expression programs (eval(str(e))) and model-based differential testing of dump/load and copy_expr_from",
